@@ -294,7 +294,13 @@ impl Check for C03 {
         let mut hlen = 0usize;
         let mut hot: Vec<usize> = Vec::new();
         let mut stream: Vec<u8>;
-        match rng.below(22) {
+        match rng.below(24) {
+            22 | 23 => {
+                // a sender that gets the line ending or the separators wrong
+                sc.sub = "sloppy_sender".into();
+                sc.set_tag("fault", "sloppy_line");
+                stream = super::c04::sloppy_v1(rng);
+            }
             20 | 21 => {
                 // one entry of the single-element corruption dictionaries (C12), here only for
                 // the monitors: no panic, no hang, in both build profiles
